@@ -183,6 +183,17 @@ class EnvValue(Position):
         return [(s, 'k')]
 
 
+class EnvValueShellLine(EnvValue):
+    """the command is ONE string (a shell line of two simple commands): the environment must reach
+    every process the line starts, not only the first"""
+    name = 'command_env_shell_line'
+
+    def script(self, strings):
+        return '\n'.join(
+            "command('c%d', cmd='true && rec ID%d', environment={'VV0': %s, 'VV1': 'k'})"
+            % (i, i, py(s)) for i, s in enumerate(strings)) + '\n'
+
+
 class TestArg(Position):
     name = 'test_arg'
     goal = 'test'
@@ -543,7 +554,7 @@ class CopyPath(FilePosition):
         return [[a.replace(pre, 'out#/') for a in x['argv']] for x in r]
 
 
-POSITIONS = [CmdArg(), CmdArgEnvBoth(), BuildStepArg(), CmdWord(), EnvValue(), TestArg(),
+POSITIONS = [CmdArg(), CmdArgEnvBoth(), BuildStepArg(), CmdWord(), EnvValue(), EnvValueShellLine(), TestArg(),
              DriverArg(False), DriverArg(True), DriverWord(), CompileOpt(), DefineOpt(),
              LinkOpt(), GlobalOpt(), CompileOptString(), LinkOptString(), EnvFlags()]
 POS = {p.name: p for p in POSITIONS}
